@@ -40,4 +40,12 @@ TABLE["C15"] = ("E1", E1N,
     "Explicit-state exploration of the real run_scheduler_loop() on a hand-stepped asyncio loop whose virtual clock is also the wall clock (run.datetime patched): start instants x schedule sets x sources (scripted list sources and the real LabelScheduleSource) x send latencies x dynamic add/remove x every subset of <=2 failing get_schedules()/kick() calls; the explorer enumerates every order of equal-deadline timers (and both in one iteration); oracle on the event log at the horizon: polls exactly at start and every minute boundary, one send per matching cron minute (independent matcher), one send per one-shot within [T, T+1 s]. One known finding (D8) classified by a predicate on the log.",
     "Trusted: asyncio on the stepped loop; timers fire exactly at their deadline and wall clock == loop clock (drift and early wake-ups are out of scope); local zone UTC; horizon 3/5 virtual minutes.",
     "DESIGN.md 2.1, 3/C15")
+E2N = "explicit-state BFS to fixpoint over event histories of the implementation on a fake OS"
+E2NOTE = "Trusted: the fake OS (Process/Queue/Event/os.kill/signal/sleep replaced in the module namespace, Linux reaping semantics), the origin tagging of queued actions by call stack; one manager, 1-3 workers; deviations bounded; the 'long random histories' part of the quantifier is sampling and is not performed."
+TABLE["C17"] = ("E2", E2N,
+    "All tick histories (per tick: any subset of workers dies, one of SIGHUP/SIGINT/SIGTERM/file-change, any subset of restarted workers crashes at start; bounded deviations: signal between drain and scan, Queue.empty() lag) of the real ProcessManager.start() for workers 1..3 x max_fails {-1,0,1,2,3}, breadth-first with de-duplication on the canonical tick-boundary state until no new state appears; monitor: never two live processes per slot, old occupant joined before its replacement starts, slot set constant, dead workers replaced within two ticks.",
+    E2NOTE, "DESIGN.md 2.2, 3/C17-C18")
+TABLE["C18"] = ("E2", E2N,
+    "Same exploration as C17; reference monitor (counter of dequeued failure-origin restarts, per-tick restart set): -1 exactly when the counter reaches max_fails>=1, reload-all restarts each slot exactly once in the tick that handles it without touching the counter, shutdown signals every live current worker exactly once and nothing else, no start afterwards, status None, start() never raises.",
+    E2NOTE, "DESIGN.md 2.2, 3/C17-C18")
 NOT_YET = {f"C{i:02d}": _PENDING for i in range(1, 21)}
